@@ -92,6 +92,7 @@ type interpreter struct {
 	curFrame           *frame
 	sched              *scheduler
 	fatalWhere         string
+	panicStack         string
 }
 
 type deferred struct {
@@ -562,6 +563,17 @@ func runFrame(fr *frame) {
 		}
 		fr.panicking = true
 		fr.panic = recover()
+		if debugStacks && fr.i.panicStack == "" {
+			if _, isRT := fr.panic.(runtime.Error); isRT {
+				buf := make([]byte, 6000)
+				n := runtime.Stack(buf, false)
+				chain := ""
+				for f := fr; f != nil; f = f.caller {
+					chain += " < " + f.fn.String()
+				}
+				fr.i.panicStack = "\ntarget frames:" + chain + "\n" + string(buf[:n])
+			}
+		}
 		switch fr.panic.(type) {
 		case pathAbort, engineError, killPanic:
 			// engine-level unwinding: target defers do not run
